@@ -1,14 +1,16 @@
 #!/bin/bash
-# usage: tools/selftest.sh [ID...] — for each seeded defect: clean tree must pass (exit 0), patched tree must alarm (exit 1).
-# Applies the patch to /repo, runs the quick check, and undoes it straight afterwards.
+# usage: tools/selftest.sh [ID...] — for each seeded defect: the patched tree must raise an alarm (exit 1).
+# Works on a scratch worktree of /repo (VERIF_REPO), never on /repo itself; evidence/replays of these
+# runs go to /tmp/verif-alt. The worktree is removed at the end.
 cd /verif
+WT=/tmp/selftest-repo-$$
+git -C /repo worktree add -q --detach $WT HEAD || exit 2
+trap "git -C /repo worktree remove --force $WT" EXIT
 IDS=${@:-$(ls seeded | grep '^C')}
 for id in $IDS; do
   [ -f harness/$id/spec.json ] || { echo "$id: no harness"; continue; }
-  git -C /repo diff --quiet || { echo "repo dirty, abort"; exit 2; }
-  ./check $id quick > /tmp/selftest-$id-clean.log 2>&1; c=$?
-  git -C /repo apply /verif/seeded/$id/patch.diff || { echo "$id: patch does not apply"; continue; }
-  ./check $id quick > /tmp/selftest-$id-seed.log 2>&1; s=$?
-  git -C /repo checkout -- .
-  echo "$id clean_exit=$c seeded_exit=$s $( [ $c = 0 ] && [ $s = 1 ] && echo OK || echo MISMATCH ) | $(tail -1 /tmp/selftest-$id-clean.log | cut -c1-110)"
+  git -C $WT checkout -q -- . && git -C $WT clean -fdq
+  git -C $WT apply /verif/seeded/$id/patch.diff || { echo "$id: patch does not apply"; continue; }
+  VERIF_REPO=$WT ./check $id quick > /tmp/selftest-$id-seed.log 2>&1; s=$?
+  echo "$id seeded_exit=$s $( [ $s = 1 ] && echo CAUGHT || echo MISSED ) | $(grep -c '^VIOLATION' /tmp/selftest-$id-seed.log) violations | $(tail -1 /tmp/selftest-$id-seed.log | cut -c1-100)"
 done
